@@ -37,7 +37,7 @@ def pyfmt(fmt):
 
 
 ETH = 16                 # first usable packet offset (after a fake header)
-REG_CANDIDATES = [2, 3, 4, 5, 6, 8]
+REG_CANDIDATES = [2, 3, 4, 5, 6, 8, 0]
 
 
 def fmt_range(fmt):
@@ -129,11 +129,6 @@ class Program:
 
         def program(e):
             # ---- prologue: raw loads of the inputs
-            for r in regs:
-                size = 4 if r["view"] in ("w", "sw") else 8
-                e.append(Opcode.LD + SIZE_OP[size], r["no"], 9,
-                         lay.reg_in[r["no"]], 0)
-                e.owners.add(r["no"])
             for d in decls:
                 if d["kind"] == "local":
                     size = fsize(d["fmt"])
@@ -141,6 +136,12 @@ class Program:
                     e.append(Opcode.LD + SIZE_OP[size], 0, 9,
                              lay.var_in[d["name"]], 0)
                     e.append(Opcode.STX + SIZE_OP[size], 10, 0, addr, 0)
+            # the registers last: r0, the scratch register above, may be one
+            for r in regs:
+                size = 4 if r["view"] in ("w", "sw") else 8
+                e.append(Opcode.LD + SIZE_OP[size], r["no"], 9,
+                         lay.reg_in[r["no"]], 0)
+                e.owners.add(r["no"])
             body(e, prog)
             # ---- epilogue: raw dump
             e.append(Opcode.ST + Opcode.B, 9, 0, lay.marker, MARK)
